@@ -275,6 +275,45 @@ def h_ipv6(ctx, part, pattern=0, free=(0,)):
       ctx.check('malformed %s rejected' % txt, raises(lambda: A.IPAddr6(txt), Exception))
 
 
+def h_forms(ctx, typ, form):
+  """binary input forms and immutability: an address built from a mutable buffer (bytearray / list) or through the copy constructor
+  equals, hashes and prints like the one built from the same bytes, exposes immutable bytes, and does not follow later changes of the buffer.
+  The byte position and the byte value (boundary values) are solver-chosen selectors; the buffers are ordinary Python objects."""
+  A = ctx.pox('pox.lib.addresses')
+  n = {'eth': 6, 'ip4': 4, 'ip6': 16}[typ]
+  cls = {'eth': A.EthAddr, 'ip4': A.IPAddr, 'ip6': A.IPAddr6}[typ]
+  pos = int(ctx.int('pos', 0, n - 1))
+  v0 = [0x00, 0x01, 0x7f, 0x80, 0xfe, 0xff, 0x2e, 0x3a][int(ctx.int('byte_choice', 0, 7))]
+  vals = [(0x9e + 37 * i) & 0xff for i in range(n)]
+  vals[pos] = v0
+  ref = cls(bytes(vals)) if typ != 'ip6' else cls.from_raw(bytes(vals))
+  text = (lambda a: a.toStr()) if typ != 'ip6' else (lambda a: a.to_str())
+  raw_of = (lambda a: a.toRaw()) if typ != 'ip6' else (lambda a: a.raw)
+  buf = None
+  if form == 'bytearray': buf = bytearray(vals); a = cls(buf)
+  elif form == 'bytearray_raw_kw': buf = bytearray(vals); a = cls(raw=buf)
+  elif form == 'bytearray_raw_true': buf = bytearray(vals); a = cls(buf, raw=True)
+  elif form == 'list': buf = list(vals); a = cls(buf)
+  elif form == 'tuple': a = cls(tuple(vals))
+  else: a = cls(ref)
+  ctx.check('equal to the address built from bytes', a == ref and not (a != ref))
+  ctx.check('prints alike', text(a) == text(ref))
+  def h(x):
+    try: return hash(x)
+    except TypeError: return None
+  ctx.check('hashes alike', h(a) is not None and h(a) == h(ref))
+  ctx.check('usable as a dictionary key', h(a) is not None and {ref: 1}.get(a) == 1)
+  r = raw_of(a)
+  ctx.check('raw value is immutable bytes', type(r) is bytes and r == bytes(vals))
+  before = text(a)
+  if buf is not None:
+    buf[pos] = vals[pos] ^ 0xff
+    buf[(pos + 1) % n] ^= 0x01
+    ctx.check('unchanged when the source buffer is modified afterwards', a == ref and raw_of(a) == bytes(vals) and text(a) == before)
+  ctx.check('attribute assignment rejected', raises(lambda: setattr(a, '_value', r), TypeError))
+  ctx.witness('done')
+
+
 def h_dpid(ctx, long_form, form=None):
   U = ctx.pox('pox.lib.util'); t = T(ctx)
   d = ctx.int('dpid', 0, (1 << 64) - 1)
@@ -332,6 +371,9 @@ def obligations(tier):
     Obligation('O1_ipv4', h_ipv4, v4, witnesses=('net', 'contiguous', 'rejected', 'parsed'), max_decisions=20000, desc='IPAddr numeric/text/compare/network/CIDR/netmask/inference'),
     Obligation('O2_eth', h_eth, eth, max_decisions=20000, desc='EthAddr raw/text forms/compare/flags/malformed'),
     Obligation('O3_ipv6', h_ipv6, v6, width=160, witnesses=('text',), max_decisions=20000, desc='IPAddr6 raw/RFC 5952 text/membership/masks/malformed'),
+    Obligation('O5_forms', h_forms, [dict(typ=t, form=f) for t in ('eth', 'ip4', 'ip6') for f in ('bytearray', 'bytearray_raw_kw', 'bytearray_raw_true', 'list', 'tuple', 'copy')
+                                     if not (t != 'eth' and f in ('list', 'tuple')) and not (t != 'ip6' and f.startswith('bytearray_raw'))], witnesses=('done',), max_decisions=20000, conc_cap=600,
+               desc='binary input forms (bytearray / list / tuple / copy): equality, hash, text, immutable raw value, independence from the source buffer'),
     Obligation('O4_dpid', h_dpid, [dict(long_form=False), dict(long_form=True)] + [dict(long_form=False, form=f) for f in ('hex16', '0x', '0X', 'dash8')], max_decisions=20000,
                desc='dpid_to_str/str_to_dpid round trip, canonical text, and the plain-hex / 0x / dashed spellings of a 64-bit id'),
   ]
